@@ -92,6 +92,38 @@ fn cooklang_start(src: &str, has_front: bool) -> usize {
     src.len()
 }
 
+/// for every line: is its end inside a block comment opened on this or an earlier line?
+/// (a mini lexer: backslash escapes, `--` line comments, `[- ... -]` block comments)
+fn open_block_at_line_end(lines: &[String]) -> Vec<bool> {
+    let mut out = Vec::with_capacity(lines.len());
+    let mut in_block = false;
+    for l in lines {
+        let cs: Vec<char> = l.chars().collect();
+        let mut i = 0;
+        while i < cs.len() {
+            if in_block {
+                if cs[i] == '-' && cs.get(i + 1) == Some(&']') {
+                    in_block = false;
+                    i += 2;
+                } else {
+                    i += 1;
+                }
+            } else if cs[i] == '\\' {
+                i += 2;
+            } else if cs[i] == '-' && cs.get(i + 1) == Some(&'-') {
+                break;
+            } else if cs[i] == '[' && cs.get(i + 1) == Some(&'-') {
+                in_block = true;
+                i += 2;
+            } else {
+                i += 1;
+            }
+        }
+        out.push(in_block);
+    }
+    out
+}
+
 fn apply_edits(src: &str, start: usize, edits: &[(u8, u16, u8)], changed_inside: &mut bool) -> String {
     let (head, body) = src.split_at(start);
     let mut lines: Vec<String> = body.split('\n').map(String::from).collect();
@@ -107,7 +139,11 @@ fn apply_edits(src: &str, start: usize, edits: &[(u8, u16, u8)], changed_inside:
                 if i + 1 == lines.len() && lines[i].is_empty() {
                     continue;
                 }
-                let add = [" -- trailing", "  ", "\t", " --", " -- @x{1%kg} >> a: b", " "][*variant as usize % 6];
+                let add = [" -- trailing", "  ", "\t", " --", " -- @x{1%kg} >> a: b", " ", " [- c -]", " [- c -] -- d", " [-- n --]", "[---]", " [- a -] [- b -] "][*variant as usize % 11];
+                // block comments do not nest: inside one, a `-]` would close it early
+                if add.contains("-]") && open_block_at_line_end(&lines)[i] {
+                    continue;
+                }
                 if !lines[i].trim().is_empty() {
                     *changed_inside = true;
                 }
@@ -122,7 +158,10 @@ fn apply_edits(src: &str, start: usize, edits: &[(u8, u16, u8)], changed_inside:
                     continue;
                 }
                 let j = cands[(*pos as usize * cands.len()) >> 16];
-                let add = ["", "   ", "-- comment only", "[- block -]", "\t[- a -] -- b"][*variant as usize % 5];
+                let add = ["", "   ", "-- comment only", "[- block -]", "\t[- a -] -- b", "[-- dashes --]", "[---]", "[- x --] -- y"][*variant as usize % 8];
+                if add.contains("-]") && j > 0 && open_block_at_line_end(&lines)[j - 1] {
+                    continue;
+                }
                 lines.insert(j, add.to_string());
                 *changed_inside = true;
             }
@@ -197,7 +236,7 @@ pub fn run(tier: Tier) -> i32 {
         run_prop(
             &mut run,
             "wellformed",
-            "generated well-formed recipes (both levels): (1) plainest spelling vs random spelling (block comments between words and inside names / quantities, blanks, soft wraps, line comments); (2) 0-6 line edits: trailing ` -- c` / blanks appended to a line, blank or comment-only lines added next to an existing empty line or at the top; (3) LF -> CRLF of the whole file when it has no backslash; each pair must have equal validity and equal recipes; non-trivial = an edit touched a non-empty line or added a line, CRLF applied, or the spelling has comments / wraps",
+            "generated well-formed recipes (both levels): (1) plainest spelling vs random spelling (block comments between words and inside names / quantities, blanks, soft wraps, line comments); (2) 0-6 line edits: trailing ` -- c` / block comments (one or several, some with dashes next to the delimiters) / blanks appended to a line, blank or comment-only lines added next to an existing empty line or at the top; (3) LF -> CRLF of the whole file when it has no backslash; each pair must have equal validity and equal recipes; non-trivial = an edit touched a non-empty line or added a line, CRLF applied, or the spelling has comments / wraps",
             || {
                 (raw_recipe(None), proptest::collection::vec((0u8..3, any::<u16>(), any::<u8>()), 0..6), any::<bool>()).prop_map(|(raw, edits, crlf)| Case { raw, edits, crlf })
             },
